@@ -6,9 +6,10 @@ changed=0
 for f in /verif/contracts/*.go; do
   p=$(basename $f .go)
   dst=/repo/pkg/$p/zz_verif_contracts.go
+  if [ "$p" = cmd ]; then dst=/repo/cmd/zz_verif_contracts.go; fi
   if ! cmp -s $f $dst 2>/dev/null; then cp $f $dst; changed=1; fi
 done
 if [ $changed = 1 ]; then
-  cd /repo && git add pkg/*/zz_verif_contracts.go && git commit -q -m "verif: contract files for gfverify (comment-only, build tag verif)" && git log --oneline | head -1
+  cd /repo && git add pkg/*/zz_verif_contracts.go cmd/zz_verif_contracts.go 2>/dev/null; git add pkg/*/zz_verif_contracts.go && git commit -q -m "verif: contract files for gfverify (comment-only, build tag verif)" && git log --oneline | head -1
 fi
 cd /repo && git log --format=%h --grep='^verif:' | tr '\n' ' '
